@@ -116,7 +116,7 @@ def compile_cmd(u, wd):
     return cmd
 
 
-def instrument_cmds(u, wd):
+def instrument_cmds(u, wd, use_guards=True):
     cmds = []
     src = "u.gb"
     if u.branch:
@@ -133,7 +133,7 @@ def instrument_cmds(u, wd):
         cmd += ["--enforce-contract", f]
     for g in u.replace:
         cmd += ["--replace-call-with-contract", g]
-    for g in guards_for(u):
+    for g in (guards_for(u) if use_guards else []):
         cmd += ["--replace-call-with-contract", g]
     if u.loops:
         cmd += ["--apply-loop-contracts"]
@@ -293,15 +293,25 @@ def run_unit(u, keep=False):
         if err:
             r["reason"] = err
             return r
-    for c in instrument_cmds(u, wd):
-        r["cmds"].append(" ".join(c))
-        rc, so, se, t = sh(c, 600, wd)
-        r["t_instr"] = round(r["t_instr"] + t, 2)
-        log = (so + se).decode(errors="replace")
-        open(os.path.join(wd, "instrument.log"), "a").write(log)
-        if rc != 0:
-            r["reason"] = "goto-instrument failed (rc=%d): %s" % (rc, log[-1500:])
+    for use_guards in (True, False):
+        failed = None
+        for c in instrument_cmds(u, wd, use_guards):
+            r["cmds"].append(" ".join(c))
+            rc, so, se, t = sh(c, 600, wd)
+            r["t_instr"] = round(r["t_instr"] + t, 2)
+            log = (so + se).decode(errors="replace")
+            open(os.path.join(wd, "instrument.log"), "a").write(log)
+            if rc != 0:
+                failed = "goto-instrument failed (rc=%d): %s" % (rc, log[-1500:])
+                break
+        # a guard (engine/guards.json) names a function that this tree's translation unit no longer contains
+        # (goto-cc drops unused static functions): instrument again without the guards, exactly the authored unit
+        if failed and use_guards and guards_for(u) and "Function to replace" in failed:
+            continue
+        if failed:
+            r["reason"] = failed
             return r
+        break
     c = cbmc_cmd(u)
     r["cmds"].append(" ".join(c))
     outp = os.path.join(wd, "cbmc.out")
